@@ -11,7 +11,7 @@ LEVEL_TEXT = ('Bounded symbolic verification, inductive: from every invariant se
               'at least the type\'s minimum length; since the relation holds for arbitrary pre-counters it holds after any history. '
               'Also along symbolic event sequences from boot, read through the REST statistic helper.')
 LEVEL_NOTE = 'Twisted as modelled. Over-long frames of fixed-length types are not part of the obligations (only reference-encoded and too-short frames).'
-LEVEL_ADDED = 'Also: type-specific bad lengths, out-of-range UPDATE length fields, and every message kind delivered in two TCP segments (cut after 5 / 19 / all but one octet).'
+LEVEL_ADDED = 'Also: type-specific bad lengths, out-of-range UPDATE length fields, and every message kind delivered in two TCP segments (cut after 5 / 19 / all but one octet). ROUTE-REFRESH with the local route-refresh capabilities off; NOTIFICATION followed by more messages in one segment (only what precedes the close is received).'
 TECHNIQUE = 'symbolic one-step counter relation with symbolic pre-counters + bounded symbolic sequences (CrossHair+z3)'
 EXPLANATION = 'C18: per-step counter deltas vs the transport log and the delivered stream.'
 BOUNDS = 'all (state, event class) pairs; pre-counters 0..2^31; sequences from boot depth 4 (quick) / 5 (thorough)'
@@ -40,7 +40,11 @@ def frames_in(data):
 def expected_recv(ev, data):
     exp = {'Opens': 0, 'Updates': 0, 'Notifications': 0, 'Keepalives': 0, 'RouteRefresh': 0}
     if data is not None:
-        for typ, length in frames_in(data):
+        frames = frames_in(data)
+        if ev == 'notif_then_more':
+            # the NOTIFICATION ends the session: what stands behind it in the segment is not received by anybody
+            frames = frames[:1]
+        for typ, length in frames:
             if typ in NAMES and length >= MIN_LEN[typ]:
                 exp[NAMES[typ]] += 1
     return exp
